@@ -172,3 +172,29 @@ contract(UTIL, 'concat_resolved',
         'implies(forall_in(0, len(arrays), lambda k: at(arrays, k).dtype == at(arrays, 0).dtype), result.dtype == at(arrays, 0).dtype) or len(arrays) == 0',
         'result.ndim == at(arrays, 0).ndim',
     ])
+
+# full_for_fill: the fill array's dtype holds both the requested dtype and the fill element (C07 reindex/shift/insert fills)
+contract(UTIL, 'dtype_from_element', key='dtype_from_element', assumed=True,     # element inspection (np.array(value).dtype): assumed, exercised by the C07 stand-in
+    params=dict(value='elem'), order=['value'], result='dtype',
+    ensures=['result == ufd("dtype_of_element", value)'])
+contract(UTIL, 'full_for_fill',
+    props=['C07'],
+    params=dict(dtype='opt[dtype]', shape='int', fill_value='elem'), order=['dtype', 'shape', 'fill_value'],
+    result='arr',
+    requires=['shape >= 0'],
+    calls={
+        'np.full': dict(params=dict(shape='int', fill_value='elem', dtype='dtype'), order=['shape', 'fill_value', 'dtype'], result='arr',
+                        ensures=['result.ndim == 1 and result.rows == shape and result.cols == 1 and result.dtype == dtype and result.writeable and result.fresh']),
+        'np.empty': dict(params=dict(shape='int', dtype='dtype'), order=['shape', 'dtype'], result='arr',
+                         ensures=['result.ndim == 1 and result.rows == shape and result.cols == 1 and result.dtype == dtype and result.writeable and result.fresh']),
+        'np.ndindex': dict(params=dict(shape='int'), order=['shape'], result='list[int]', ensures=['len(result) == shape']),
+        'array.__setitem__': dict(params=dict(key='int', value='elem'), order=['key', 'value'], result='none', requires=['array.writeable and array.fresh'], ensures=[]),
+    },
+    n_loops=1,
+    loops={0: dict(index='t', invariant=['array.writeable and array.fresh and array.dtype == DTYPE_OBJECT and array.rows == shape'])},
+    ensures=[
+        'result.fresh and result.rows == shape',                                   # a new array of the requested length (not frozen: callers may still write)
+        'holds(result.dtype, ufd("dtype_of_element", fill_value))',                # the fill element fits
+        'implies(not is_none(dtype), holds(result.dtype, dtype))',                 # and so does the data it will be merged with
+        'implies(is_none(dtype), result.dtype == ufd("dtype_of_element", fill_value))',
+    ])
